@@ -1,14 +1,13 @@
 package main
 
 import (
-	"bytes"
-	"encoding/json"
 	"fmt"
 	"math"
 	"sort"
 	"strings"
 	"time"
 
+	"github.com/atlassian/gostatsd"
 	"github.com/atlassian/gostatsd/pkg/backends/newrelic"
 
 	"verifharness/hlib"
@@ -47,18 +46,21 @@ func runNewRelic(in *input, cfg BackendCfg) bres {
 	if mode != 0 {
 		apiKey = "key"
 	}
-	cli, err := newrelic.NewClient("default", srv.srv.URL+"/v1/data", srv.srv.URL+"/metric/v1", "GoStatsD", cfg.Mode, apiKey, cfg.Suffix,
-		"name", "type", "per_second", "value", "min", "max", "count", "mean", "median", "std_dev", "sum", "sum_squares",
-		"agent", cfg.Batch, 8, 5*time.Second, flushInterval, in.subtypes(), quiet, p)
+	cli, err := client("newrelic", func() (gostatsd.Backend, error) {
+		return newrelic.NewClient("default", srv.srv.URL+"/v1/data", srv.srv.URL+"/metric/v1", "GoStatsD", cfg.Mode, apiKey, cfg.Suffix,
+			"name", "type", "per_second", "value", "min", "max", "count", "mean", "median", "std_dev", "sum", "sum_squares",
+			"agent", cfg.Batch, maxReq(8), 5*time.Second, flushInterval, in.subtypes(), quiet, p)
+	})
 	if err != nil {
 		r.monitors = append(r.monitors, "newrelic.NewClient: "+err.Error())
 		return r
 	}
-	ctx, cancel := fixedCtx()
-	defer cancel()
-	errs, bad := send(ctx, cli, in.buildMap())
+	errs, bad := flush(cli, in.buildMap())
 	if bad != "" {
 		r.monitors = append(r.monitors, "newrelic: "+bad)
+	}
+	if seq.fail {
+		return r
 	}
 	for _, e := range errs {
 		if strings.Contains(e.Error(), "unable to marshal") && strings.Contains(e.Error(), "unsupported value") {
@@ -75,12 +77,12 @@ func runNewRelic(in *input, cfg BackendCfg) bres {
 		}
 		body, err := decodeBody(c)
 		if err != nil {
-			r.monitors = append(r.monitors, "newrelic: body does not decompress: "+err.Error())
-			continue
+			r.monitors = append(r.monitors, "newrelic: body is not exactly one well-formed compressed stream: "+err.Error())
+			if body == nil {
+				continue
+			}
 		}
 		var sets []map[string]interface{}
-		dec := json.NewDecoder(bytes.NewReader(body))
-		dec.DisallowUnknownFields()
 		switch mode {
 		case 0:
 			var pl struct {
@@ -91,13 +93,13 @@ func runNewRelic(in *input, cfg BackendCfg) bres {
 					Metrics []map[string]interface{} `json:"metrics"`
 				} `json:"data"`
 			}
-			if err := dec.Decode(&pl); err != nil || pl.Name == nil || len(pl.Data) != 1 {
+			if err := oneJSON(body, &pl); err != nil || pl.Name == nil || len(pl.Data) != 1 {
 				r.monitors = append(r.monitors, fmt.Sprintf("newrelic: not an infrastructure payload (%v): %.200q", err, body))
 				continue
 			}
 			sets = pl.Data[0].Metrics
 		case 1:
-			if err := dec.Decode(&sets); err != nil {
+			if err := oneJSON(body, &sets); err != nil {
 				r.monitors = append(r.monitors, fmt.Sprintf("newrelic: not an insights event array (%v): %.200q", err, body))
 				continue
 			}
@@ -109,7 +111,7 @@ func runNewRelic(in *input, cfg BackendCfg) bres {
 				} `json:"common"`
 				Metrics []map[string]interface{} `json:"metrics"`
 			}
-			if err := dec.Decode(&pl); err != nil || len(pl) != 1 {
+			if err := oneJSON(body, &pl); err != nil || len(pl) != 1 {
 				r.monitors = append(r.monitors, fmt.Sprintf("newrelic: not a metric API payload (%v): %.200q", err, body))
 				continue
 			}
